@@ -119,7 +119,10 @@ func loadEngine(pkgDirs []string, opts Options) (*Engine, error) {
 	e := &Engine{
 		prog: prog, pkgs: map[string]*ssa.Package{}, fnInfos: map[*ssa.Function]*fnInfo{},
 		redirects: map[string]*ssa.Function{}, syncFuncs: map[string]bool{}, opts: opts,
-		funcsSeen: map[string]int{}, runtimeErrorType: types.Typ[types.String],
+		funcsSeen: map[string]int{}, runtimeErrorType: types.Typ[types.String], summarise: map[string]bool{},
+	}
+	for _, n := range defaultSummarise {
+		e.summarise[n] = true
 	}
 	for _, p := range prog.AllPackages() {
 		e.pkgs[p.Pkg.Path()] = p
@@ -192,6 +195,12 @@ func (e *Engine) setupRedirects() {
 			e.redirects[target] = f
 		}
 	}
+	if ep := e.pkgs["errors"]; ep != nil {
+		e.redirects["github.com/pkg/errors.New"] = ep.Func("New")
+	}
+	if f := vp.Func("ModelErrorf"); f != nil {
+		e.redirects["github.com/pkg/errors.Errorf"] = f
+	}
 	for k := range intrinsics {
 		switch {
 		case strings.HasPrefix(k, "(*sync."), strings.HasPrefix(k, "sync/atomic."), k == vrt+"SyncPoint", k == "runtime.Gosched", k == "time.Sleep":
@@ -207,7 +216,33 @@ func (e *Engine) setupRedirects() {
 }
 
 // modelTargets maps verifrt model function names to the library functions they replace.
-var modelTargets = map[string]string{}
+var modelTargets = map[string]string{
+	"ModelNewDB":              "github.com/bartossh/Computantis/src/verifrt.NewDB",
+	"ModelDBUpdate":           "(*github.com/dgraph-io/badger/v4.DB).Update",
+	"ModelDBView":             "(*github.com/dgraph-io/badger/v4.DB).View",
+	"ModelDBBackup":           "(*github.com/dgraph-io/badger/v4.DB).Backup",
+	"ModelDBClose":            "(*github.com/dgraph-io/badger/v4.DB).Close",
+	"ModelDBRunValueLogGC":    "(*github.com/dgraph-io/badger/v4.DB).RunValueLogGC",
+	"ModelTxnGet":             "(*github.com/dgraph-io/badger/v4.Txn).Get",
+	"ModelTxnSet":             "(*github.com/dgraph-io/badger/v4.Txn).Set",
+	"ModelTxnSetEntry":        "(*github.com/dgraph-io/badger/v4.Txn).SetEntry",
+	"ModelTxnDelete":          "(*github.com/dgraph-io/badger/v4.Txn).Delete",
+	"ModelTxnDiscard":         "(*github.com/dgraph-io/badger/v4.Txn).Discard",
+	"ModelTxnNewIterator":     "(*github.com/dgraph-io/badger/v4.Txn).NewIterator",
+	"ModelNewEntry":           "github.com/dgraph-io/badger/v4.NewEntry",
+	"ModelItemKey":            "(*github.com/dgraph-io/badger/v4.Item).Key",
+	"ModelItemValue":          "(*github.com/dgraph-io/badger/v4.Item).Value",
+	"ModelItemValueCopy":      "(*github.com/dgraph-io/badger/v4.Item).ValueCopy",
+	"ModelIterClose":          "(*github.com/dgraph-io/badger/v4.Iterator).Close",
+	"ModelIterSeek":           "(*github.com/dgraph-io/badger/v4.Iterator).Seek",
+	"ModelIterRewind":         "(*github.com/dgraph-io/badger/v4.Iterator).Rewind",
+	"ModelIterNext":           "(*github.com/dgraph-io/badger/v4.Iterator).Next",
+	"ModelIterValid":          "(*github.com/dgraph-io/badger/v4.Iterator).Valid",
+	"ModelIterValidForPrefix": "(*github.com/dgraph-io/badger/v4.Iterator).ValidForPrefix",
+	"ModelIterItem":           "(*github.com/dgraph-io/badger/v4.Iterator).Item",
+	"ModelOsCreate":           "os.Create",
+	"ModelFileClose":          "(*os.File).Close",
+}
 
 func registerModel(modelName, target string) { modelTargets[modelName] = target }
 
